@@ -219,6 +219,8 @@ def load_one(lit: LineIterator, norm_threshold: float = 1e-4) -> dict:
 
     if charge is None:
         raise LoadError("Charge and spin polarization not found.", lit)
+    if atcharges is not None and atnums is not None and len(atcharges["mulliken"]) != len(atnums):
+        raise LoadError("The number of atomic charges differs from the number of atoms.", lit)
     if atcoords is None:
         raise LoadError("Coordinates not found.", lit)
     if obasis is None:
